@@ -311,6 +311,43 @@ def run(prog, ctx):
         else:
             res.violate("C05.M", "C05.M|kxp", "move_window does not refresh KXP exactly when new_offset & 7 == 0", mw.id)
     res.rule("C05.M", n_m, 4, "window-move obligations")
+    # ---------------- C05.D deletion from the open-addressing pair table: the run after the freed slot is re-inserted up to
+    # the next EMPTY slot; nothing else may end the scan (an item left behind a hole is unreachable for lookup)
+    n_d = 0
+    for f in C.fns_of(prog, "cpc::pair_table::PairTable"):
+        sf = Sym(prog, f, ifconv=False)
+        for header, body in sf.loops():
+            stores_empty = False
+            reinserts = False
+            for b in body:
+                for st in f.blocks[b].stmts:
+                    if st[0] == "=" and not isinstance(st[1], int) and any(p[0] in ("[]", "[c]") for p in st[1][1]) and sf.rvalue(st[2]) == ("const", 4294967295):
+                        stores_empty = True
+                t = f.blocks[b].term
+                if t[0] == "call" and (t[1].get("callee") or "").rsplit("::", 1)[-1] in ("must_insert", "maybe_insert", "insert"):
+                    reinserts = True
+                if t[0] == "call" and (t[1].get("callee") or "").endswith("index_mut"):
+                    pass
+            # stores through IndexMut
+            for bb, base, ie, val, span, _s in C.buffer_stores(prog, f):
+                if bb in body and val == ("const", 4294967295):
+                    stores_empty = True
+            if not (stores_empty and reinserts):
+                continue
+            n_d += 1
+            res.obligations += 1
+            bad = None
+            for x, cond, _ in C.loop_exits(prog, f, sf, header, body):
+                if cond is None:
+                    continue
+                is_empty_test = cond[0] == "bin" and cond[1] in ("Eq", "Ne") and (C.const_of(cond[2]) == 4294967295 or C.const_of(cond[3]) == 4294967295)
+                if not is_empty_test:
+                    bad = show(cond)
+            if bad is None:
+                res.discharged += 1
+            else:
+                res.violate("C05.D", "C05.D|%s" % f.id, "%s: the re-insertion scan after a deletion can stop before the next empty slot (extra exit condition %s); items behind the hole become unreachable" % (f.id, bad[:120]), f.id)
+    res.rule("C05.D", n_d, 1, "re-insertion scans after deletion in the pair table")
     res.explanation = ("structural and formula rules over the %d functions reachable from CpcSketch::update; threshold formulas are evaluated on a grid of "
                        "lg_k 4..=26 x boundary/random coupon counts" % len(reach))
     res.not_decided = "equality of the reconstructed matrix with the model for all coupon streams"
